@@ -214,6 +214,9 @@ def check(ck):
             ck.ob("spread arm: the name is added to the visited set before the recursion", ok_add, collect, e,
                   construct="spread:add-dominates")
             if adds:
+                ck.ob("spread arm: the fragment is marked visited only after its @skip/@include gate let it through (a skipped spread must not hide a later one)",
+                      any(t.startswith("await should_include_node(") and o == "T" for t, o in fv.conditions(adds[0])), collect, adds[0], construct="spread:add-after-gate",
+                      detail=str(fv.conditions(adds[0])))
                 a = adds[0]
                 same = not_visited and unparse(a.args[0]) == not_visited[0].split(" in ")[0] and \
                     unparse(a.func.value) == not_visited[0].split(" in ")[1]
@@ -295,6 +298,14 @@ def check(ck):
     # ---------------------------------------------------------------- R10
     with ck.rule("R10"):
         _type_resolver(ck, repo)
+
+    # ---------------------------------------------------------------- R11
+    # "spec-coerced arguments": the argument decision table and the per-declared-argument structure
+    # (the same obligations as C05.R1 / C05.R2, which are necessary conditions of C01 as well)
+    with ck.rule("R11"):
+        from . import c05
+        c05._argument_table(ck, repo)
+        c05._coerce_arguments(ck, repo)
 
 
 def _pick(expr, env, val, atoms) -> str:
